@@ -527,7 +527,15 @@ fn yaml_inline(v: &J, quoted: &mut bool) -> Option<String> {
                 s.clone()
             } else {
                 *quoted = true;
-                format!("\"{}\"", s) // AsciiPlain: no quote, no backslash, printable
+                // AsciiPlain: no double quote, no backslash, printable. Half of the quoted
+                // strings (chosen by length parity, so no entropy is needed here) are written
+                // single-quoted with '' for an apostrophe: the two routes decode that escape in
+                // different code.
+                if s.len() % 2 == 0 {
+                    format!("'{}'", s.replace('\'', "''"))
+                } else {
+                    format!("\"{}\"", s)
+                }
             }
         }
         J::Arr(a) if a.is_empty() => "[]".into(),
